@@ -6,6 +6,15 @@ use core::convert::TryFrom;
 use core::marker::PhantomData;
 use std::prelude::v1::*;
 
+// Verification hook: the Kani compiler overrides the assertion macros through `#[macro_use]`, which
+// is ambiguous with the glob import of the std prelude above. Only `cfg(kani)` builds see this.
+#[cfg(kani)]
+#[allow(unused_imports)]
+use core::{
+    assert, assert_eq, assert_ne, debug_assert, debug_assert_eq, debug_assert_ne, panic,
+    unreachable,
+};
+
 /// Wrapper around const slices.
 ///
 /// This is meant as a safe type to pass across the FFI boundary with similar semantics as regular
